@@ -724,6 +724,15 @@ pub fn after_client_frame(sim: &mut Sim, c: usize) {
         }
     }
 
+    // ---- C02: EntityReplicated never names a tick newer than the entity's confirmed tick
+    for (e, t) in &replicated {
+        if let Some((_, _, _, lt)) = held.values().find(|h| h.0 == e.to_bits()) {
+            if t > lt {
+                v.push(("C02", "replicated_event_ahead", format!("client {c}: EntityReplicated for {:#x} names tick {t} but the entity's confirmed tick is {lt}", e.to_bits())));
+            }
+        }
+    }
+
     // ---- C09: nothing of an earlier session
     for (e, t) in &replicated {
         if !sess.delivered_ticks.contains(t) {
